@@ -97,7 +97,7 @@ def check_select(case):
     asts = [p[1] for p in parts if p[1] is not None]
 
     def inject():
-        sut.setup_hardcoded(sut.make_cer(rc=cer["rc"], fc=cer["fc"], hints=cer["hints"]))
+        sut.setup_hardcoded(sut.make_cer(rc=cer["rc"], fc=cer["fc"], hints=cer["hints"], packages=cer.get("packages") or {}))
 
     # the parts on their own
     own = []
@@ -108,7 +108,11 @@ def check_select(case):
         inject()
         # the part's condition expression exactly as written (grouping inside one-operator runs is unspecified, and
         # hint texts / the collected expression legitimately depend on it)
-        rc_res = sut.call(api.requirement_constraint_evaluation, written)
+        own_tree = sut.call(api.resolve, written, True)  # the part's own condition expression, packages resolved
+        if not own_tree.ok:
+            fail("part-raises", f"part {written!r} of {text!r} could not be resolved on its own: {own_tree!r}")
+        inject()
+        rc_res = sut.call(api.requirement_constraint_evaluation, own_tree.value)
         if not rc_res.ok:
             fail("part-raises", f"part {written!r} of {text!r} raised on its own: {rc_res!r}")
         inject()
@@ -130,7 +134,8 @@ def check_select(case):
     if selected != ref.select_part([p[:2] for p in parts], cer["rc"]):
         raise AssertionError("differential and reference selection disagree")
     # the whole expression
-    tree = sut.call(api.resolve, text)
+    inject()
+    tree = sut.call(api.resolve, text, True)
     if not tree.ok:
         fail("rejected", f"AHB expression {text!r} was not resolved: {tree!r}")
     inject()
@@ -176,6 +181,8 @@ def classify_select(case, info):
         labels.append("noncanonical-spelling")
     if "K" in case["cer"]["rc"].values():
         labels.append("has-unknown")
+    if any("P" in (p[2] or "") for p in parts):
+        labels.append("with-packages")
     if any(p[0].upper() in ("X", "O", "U") and p[0].islower() for p in parts):
         labels.append("lower-case-prefix-operator")
     later = len(parts) >= 2 and info["selected"] > 0
@@ -184,7 +191,9 @@ def classify_select(case, info):
     return labels, later or noncanonical
 
 
-def _build_parts(draw, size, domain):
+def _build_parts(draw, size, domain, table_asts=None):
+    from vlib import vtree
+
     shape = draw(gen.g_ahb_shape(max_parts=4))
     parts, rendered = [], []
     for indicator, has_cond in shape:
@@ -192,9 +201,12 @@ def _build_parts(draw, size, domain):
         if has_cond:
             if domain:
                 ast = draw(gen.g_dom(max_atoms=size, mode="valid", pools={"rc": gen.RC_POOL[:5], "hint": gen.HINT_POOL[:3], "fc": gen.FC_POOL[:3]}))
+                # some requirement constraints are written as packages; `ast` keeps the expanded form for the reference
+                written_ast, ast = vtree._swap_in_packages(draw, ast, table_asts or {})  # pylint:disable=protected-access
+                cond = gen.render(draw, written_ast, redundant=draw(st.booleans()), top=False)
             else:
                 ast = draw(gen.g_expr(max_atoms=size))
-            cond = gen.render(draw, ast, redundant=draw(st.booleans()), top=False)
+                cond = gen.render(draw, ast, redundant=draw(st.booleans()), top=False)
         parts.append([indicator, ast, cond])
         rendered.append((indicator, cond))
     return parts, gen.render_ahb(draw, rendered)
@@ -216,7 +228,10 @@ def strategy_select(tier):
 
     @st.composite
     def build(draw):
-        parts, text = _build_parts(draw, size, domain=True)
+        from vlib import vtree
+
+        table, table_asts = draw(vtree.package_table()) if draw(st.booleans()) else ({}, {})
+        parts, text = _build_parts(draw, size, domain=True, table_asts=table_asts)
         asts = [p[1] for p in parts if p[1] is not None]
         rc_keys = sorted({k for a in asts for k in ref.keys_of(a, "rc")})
         fc_keys = sorted({k for a in asts for k in ref.keys_of(a, "fc")})
@@ -226,6 +241,7 @@ def strategy_select(tier):
             "rc": draw(gen.rc_assignment(rc_keys, values=values)),
             "fc": draw(gen.fc_truth(fc_keys)),
             "hints": draw(gen.hint_texts(hint_keys)),
+            "packages": table,
         }
         return {"parts": parts, "s": text, "cer": cer}
 
